@@ -1,4 +1,3 @@
 package vh
 
-func (d *dataRun) codecCase(c DataCase, out map[string]interface{}) { out["err"] = "not implemented" }
-func (d *dataRun) poolCase(c DataCase, out map[string]interface{})  { out["err"] = "not implemented" }
+func (d *dataRun) poolCase(c DataCase, out map[string]interface{}) { out["err"] = "not implemented" }
